@@ -38,7 +38,32 @@ SPACES = [
     [["x", "uniform", [0.0, 1.0]]],
     [["opt", "choice", [["adam", "sgd", "rmsprop", "lamb", "adagrad"]]], ["act", "choice", [["relu", "tanh", "gelu", "swish"]]],
      ["norm", "choice", [["batch", "layer", "none"]]], ["size", "ordinal", [["xs", "s", "m", "l"]]]],
+    # quantised domains (every constructor) mixed with ordinary ones
+    [["lr", "qloguniform", [1e-3, 1.0, 1e-3]], ["mom", "quniform", [0.0, 1.0, 0.05]], ["bs", "qrandint", [8, 128, 8]],
+     ["steps", "qlograndint", [1, 1000, 5]], ["act", "choice", [["relu", "tanh"]]], ["w", "uniform", [0.0, 1.0]]],
+    [["drop", "quniform", [0.0, 0.8, 0.1]], ["layers", "randint", [1, 20]], ["units", "qrandint", [16, 256, 16]]],
 ]
+GP_SPACES = [0, 1, 2, 7]
+GRID_SPACES = [0, 2, 4, 5, 7]
+
+
+def alt_space(rng, space):
+    """a DIFFERENT configuration space that reuses the hyperparameter NAMES with smaller ranges"""
+    out = []
+    for name, kind, args in space:
+        if kind in ("randint", "lograndint"):
+            out.append([name, "randint", [args[0], args[0] + rng.choice([1, 2, 3])]])
+        elif kind in ("qrandint", "qlograndint"):
+            out.append([name, "randint", [max(1, args[0]), max(1, args[0]) + 2]])
+        elif kind in ("uniform", "quniform"):
+            out.append([name, "uniform", [args[0], args[0] + (args[1] - args[0]) / 4.0]])
+        elif kind in ("choice", "ordinal"):
+            out.append([name, kind, [args[0][:2]]])
+        elif kind == "const":
+            out.append([name, kind, args])
+        else:
+            out.append([name, "randint", [1, 3]])
+    return out
 
 # (grace_period, reduction_factor, max_t) -> rung levels; grouped by the NUMBER of rung levels (values differ)
 RUNG_LAYOUTS = {
@@ -113,9 +138,9 @@ def gen_sched_case(rng, variant, gp=False, profile=False, rich=False):
                                "opt_nstarts": rng.choice([1, 2]), "num_init_candidates": rng.choice([10, 30])}
         if base.get("searcher") == "bayesopt" and rng.random() < 0.3:
             p["search_options"]["opt_skip_init_length"] = 2
-    space = rng.choice(SPACES[:3] if gp else SPACES)
+    space = SPACES[rng.choice(GP_SPACES)] if gp else rng.choice(SPACES)
     if base.get("searcher") == "grid":
-        space = rng.choice([SPACES[0], SPACES[2], SPACES[4], SPACES[5]])
+        space = SPACES[rng.choice(GRID_SPACES)]
     # searcher options inside the property's quantifier: restrict_configurations, points_to_evaluate (entries inside
     # / outside the restricted list, partial entries, the empty list), allow_duplicates both ways
     searcher = base.get("searcher")
@@ -163,6 +188,10 @@ def gen_sched_case(rng, variant, gp=False, profile=False, rich=False):
             pp.pop("opts", None)
             pp["search_options"] = dict(pp.get("search_options") or {}, allow_duplicates=rng.random() < 0.5)
             pp["share_opts"] = rng.random() < 0.5
+            if rng.random() < 0.5:
+                # another space under the same hyperparameter names (smaller ranges); nothing is shared then
+                pp["alt_space"] = alt_space(rng, space)
+                pp["share_opts"] = False
             if kind == "hyperband":
                 pp["type"] = rng.choice([p["type"], "rush_stopping", "rush_promotion", "stopping"])
                 if pp["type"] == "pasha" or p.get("type") == "pasha":
